@@ -14,3 +14,14 @@ try:
         pass
 except ImportError:
     pass
+
+
+def structural():
+    """(as for C02) the round trip is stated for any parser object: the parser's frame obligations are included"""
+    from .C05_structural import structural as s5
+    out = []
+    for o in s5():
+        o = dict(o)
+        o["name"] = o["name"].replace("C05.", "C01.", 1)
+        out.append(o)
+    return out
